@@ -318,9 +318,9 @@ Theorem C09_decrement_model : forall cf st room,
                | Some (_, true) => count_dec (key_conn t) (snd (exec cf st (IEntomb t s) room)) = 1
                | _ => snd (exec cf st (IEntomb t s) room) = []
                end) /\
-  (forall t, match snd (items_delete st t) with
-             | Some (_, true) => count_dec (key_conn t) (snd (exec cf st (IDelete t) room)) = 1
-             | _ => snd (exec cf st (IDelete t) room) = []
+  (forall t lk, match snd (items_delete_call st t lk) with
+             | Some (_, true) => count_dec (key_conn t) (snd (exec cf st (IDelete t lk) room)) = 1
+             | _ => snd (exec cf st (IDelete t lk) room) = []
              end).
 Proof. exact (fun cf st room => conj (fun k => dec_then_check cf st k room) (dec_sites_model cf st room)). Qed.
 Print Assumptions C09_decrement_model.
@@ -404,24 +404,35 @@ Theorem C09_timer_protocol_reuse : forall cf ls st, run_reuse cf init ls = Some 
 Proof. exact reuse_timer_protocol. Qed.
 Print Assumptions C09_timer_protocol_reuse.
 
-(* The guard on re-use schedules CANNOT be dropped entirely, also with relayItems.deleteTomb.
-   (1) The schedule that needed it before the fix (finishRelayItem deletes a tombstone whose
-   collection is pending, the id is re-used and admitted, the stale collection fires) is now
-   harmless: the live item and its armed timer survive the stale collection.
-   (2) But a re-used id that meets NO item can be admitted while another goroutine still holds
-   the key: the reader of the destination connection has looked the originating item up for the
-   final call res, the caller cancels (both items deleted, End) and re-uses the id at once, the
-   first reader's finishRelayItem then deletes the LIVE item of the new call and releases its
-   active timer: the model reaches the Go panic "only stopped or completed timers can be
-   released".  (A caller that re-uses the id of a call whose response it has not seen; outside
-   the quantifier of C09, reported to C03.) *)
+(* The guard on re-use schedules CANNOT be dropped entirely.
+   (1) The schedule that needed it before relayItems.deleteTomb (finishRelayItem deletes a
+   tombstone whose collection is pending, the id is re-used and admitted, the stale collection
+   fires) is harmless: the live item and its armed timer survive the stale collection.
+   (2) The schedule that needed it before relayItems.deleteCall (the reader of the destination
+   connection has looked the originating item up for the final call res, the caller cancels and
+   re-uses the id at once, the first reader's finishRelayItem runs with its stale copy --
+   reproduced on the implementation, [c09:stale-finish-deletes-live-item], fixed) is harmless:
+   deleteCall compares the destination relayer and the destination-side id of the item it finds
+   with the looked-up one and leaves the new call's item alone.
+   (3) What remains: failRelayItem's Get and Entomb are two lock regions and Entomb works BY ID;
+   with more than RelayMaxTombs tombstones it deletes by id at once.  A reader that is between
+   the two while the caller cancels the call and re-uses the id deletes the LIVE item of the new
+   call and releases its active timer: the model reaches the Go panic "only stopped or completed
+   timers can be released" ([ex_stale_fail], RelayMaxTombs = 1; not reproduced on the
+   implementation: there is no schedule point between the two regions).  A caller that re-uses the
+   id of a call whose response it has not seen: outside the quantifier of C09. *)
 Theorem C09_stale_collection_harmless :
   exists st it x, run ex_cf init ex_early_delete = Some st /\ panicked st = 0 /\ gcs st = [(1, 1, 1)] /\
     lookup key_eqb (0, 0, 7) (items st) = Some it /\ it_tomb it = false /\
     lookup Z.eqb (it_tm it) (timers st) = Some x /\ tm_armed x = true.
 Proof. exact stale_collection_harmless. Qed.
+Theorem C09_stale_finish_harmless :
+  exists st it x, run cn_cf init ex_stale_finish = Some st /\ panicked st = 0 /\
+    lookup key_eqb (0, 0, 7) (items st) = Some it /\ it_tomb it = false /\ it_call it = 2 /\
+    lookup Z.eqb (it_tm it) (timers st) = Some x /\ tm_armed x = true /\ c_pending (get_conn st 0) = 1.
+Proof. exact stale_finish_harmless. Qed.
 Theorem C09_timer_protocol_unguarded_refuted :
-  exists ls st, run cn_cf init ls = Some st /\ panicked st = panic_release_active.
+  exists ls st, run tt_cf init ls = Some st /\ panicked st = panic_release_active.
 Proof. exact reuse_unguarded_refuted. Qed.
 Print Assumptions C09_timer_protocol_unguarded_refuted.
 
